@@ -11,12 +11,14 @@ HARNESS_TIMEOUT = 1500
 TECHNIQUE = ("Coq proofs over the LogSync state-machine model: script (what a side sends is a function of its replica and the accepted Have, "
              "for every interleaving), sent_ops_exact (= rows above the peer's height per configured log), joint invariant of two machines "
              "over FIFO queues for every schedule (received_exact, termination via deadlock freedom + decreasing measure), converge "
-             "(heights after ingest = pointwise max); + differential correspondence with two real LogSync::run sessions over in-memory channels")
+             "(heights after ingest = pointwise max); + differential correspondence with two real LogSync::run sessions over in-memory channels "
+             "(unbounded, and futures::mpsc::channel(c) for small c), incl. ranges of several hundred entries")
 LEVEL_TEXT = ("Theorems C19_script / C19_script_interleaving_independent / C19_sent_ops_exact / C19_received_exact(_wf) / C19_converge / "
               "C19_termination are proved in Coq, closed under the global context, for all replicas (any authors/logs/heights/pruned "
               "prefixes/gaps), all configurations and all schedules of the joint model; no bound. The model is tied to "
               "p2panda-sync/src/protocols/log_sync.rs, p2panda-core/src/logs.rs and the SQLite log store on every run: random replica "
-              "pairs (overlapping prefixes, pruned logs, gaps, empty sides, differing configurations) are put into two SqliteStores, two real "
+              "pairs (overlapping prefixes, pruned logs, gaps, empty sides, differing configurations, ranges of 127..640 entries, transports "
+              "channel(c) with c = 1..16 where C21_outside_known guarantees termination) are put into two SqliteStores, two real "
               "sessions run against each other, and sink messages, OperationReceived events and heights after ingest are compared with the "
               "model's line; the oracle (expected_ops / grammar / pointwise-max heights) is evaluated on the implementation's observation.")
 LEVEL_NOTE = ("Hypotheses of the theorems: the store does not change during the session (C20 covers changes); row sizes > 0; operation ids "
@@ -30,7 +32,13 @@ ASSUMPTIONS = ["static stores during the session; positive row sizes; distinct o
 TRUSTED = ["modelled not verified: SQLite query semantics, CBOR decoding, ingest accepting received operations, tokio select! fairness"]
 RULE = ("quick: 160 random replica pairs drawn from a common universe of logs (1-4 authors x 1-2 logs, per side a window [lo..hi] of each log: "
         "absent / pruned prefix / behind / ahead / equal, 12% gaps; 20% of the cases with a different configuration on side B) + 8 fixed "
-        "boundary cases; thorough: 900 pairs with logs up to 32 rows. non-trivial = the session completed and at least one operation was sent")
+        "boundary cases; thorough: 900 pairs with logs up to 32 rows. + long ranges: one range to send of 127/128/129/130/256/257/290/380/500 "
+        "entries (around the multiples of 64/128/256 a batching sender would use), two long ranges of one author, both sides sending a long "
+        "range, a gap inside, logs behind a pruned prefix longer than 64/128 (13 in quick, ~110 in thorough up to 640 entries). + small transports: "
+        "the same observation over futures::mpsc::channel(c), c in {1,2,3,4,8,16}, only where C21_outside_known guarantees termination (c >= 1, one "
+        "side's operations + Done <= c): the small side at the boundary c-1 operations, the large side c+1 .. 65 operations, both orientations, "
+        "shared prefixes, two logs (39 in quick incl. 3 vs 40 over channel(8), 226 in thorough). "
+        "non-trivial = the session completed and at least one operation was sent")
 
 FIXED = [
     {"logs": [], "repa": [], "repb": []},
@@ -445,13 +453,21 @@ def shrink(case):
 
 
 def distribution(cases, impl):
-    d = {"both_send": 0, "one_sends": 0, "none_sends": 0, "pruned_logs": 0, "gaps": 0, "different_cfg": 0, "max_ops_one_side": 0}
+    d = {"both_send": 0, "one_sends": 0, "none_sends": 0, "pruned_logs": 0, "gaps": 0, "different_cfg": 0, "max_ops_one_side": 0,
+         "range_over_128": 0, "small_transport": 0, "small_transport_both_send": 0, "by_cap": {}}
     for i, c in enumerate(cases):
         f = fields(impl.get(i, "x"))
         na = len([t for t in f.get("A", "").split() if t.startswith("O")])
         nb = len([t for t in f.get("B", "").split() if t.startswith("O")])
         d["both_send" if na and nb else ("one_sends" if na or nb else "none_sends")] += 1
         d["max_ops_one_side"] = max(d["max_ops_one_side"], na, nb)
+        if max(na, nb) > 128:
+            d["range_over_128"] += 1
+        if c.get("cap") is not None:
+            d["small_transport"] += 1
+            d["by_cap"][str(c["cap"])] = d["by_cap"].get(str(c["cap"]), 0) + 1
+            if na and nb:
+                d["small_transport_both_send"] += 1
         if c.get("logsb") is not None:
             d["different_cfg"] += 1
         for side in ("repa", "repb"):
